@@ -118,6 +118,7 @@ Definition cp_of (r : repo) (x : blk) : option blk := block_at r (b_id x) (check
 
 Record casts_inv (r : repo) (Qb master finnum : N) (ca : list (N * N)) : Prop := mkCI {
   ci_nodup : NoDup (ckeys ca);
+  ci_stored : casts_stored r ca;
   ci_bound : forall k q, In (k, q) ca -> q <= Qb;
   ci_cover : forall x, In x r -> b_signer x = master -> finnum <= b_num x ->
     exists y q cpx, In (b_id y, q) ca /\ In y r /\ qual c r x <= q /\
@@ -217,8 +218,10 @@ Qed.
 
 Theorem new_casts_inv : casts_inv r Qb (e_master e) (idnum (e_fin e)) (new_casts c r e).
 Proof.
-  unfold new_casts. fold F. constructor.
+  pose proof (new_casts_stored c r e) as Hst.
+  unfold new_casts in *. fold F in Hst |- *. constructor.
   - apply fold_F_nodup. constructor.
+  - exact Hst.
   - apply fold_F_bound; [|intros k q []]. intros h Hh. unfold heads_from in Hh. apply filter_In in Hh. tauto.
   - intros x Hx Hs Hf.
     destruct (leaf_above r Hwf Hroot x Hx) as [h [Hh [Hleaf Hin]]].
@@ -289,7 +292,8 @@ Proof. intros Hwf Hy. unfold has_block. rewrite chain_of_fresh; [reflexivity | e
 Lemma casts_inv_import b r Qb Qb' m f f' ca : wf_repo (b :: r) -> b_signer b <> m -> Qb <= Qb' -> f <= f' ->
   casts_inv r Qb m f ca -> casts_inv (b :: r) Qb' m f' ca.
 Proof.
-  intros Hwf Hs HQ Hf [Hn Hb Hc]. constructor; [exact Hn | intros k q H; specialize (Hb k q H); lia |].
+  intros Hwf Hs HQ Hf [Hn Hst Hb Hc]. constructor; [exact Hn | | intros k q H; specialize (Hb k q H); lia |].
+  { intros kv Hkv. destruct (Hst kv Hkv) as [y [Hy E]]. exists y. split; [right; exact Hy | exact E]. }
   intros x [<-|Hx] Hsx Hfx; [contradiction|].
   destruct (Hc x Hx Hsx ltac:(lia)) as [y [q [cpx [H1 [H2 [H3 [H4 H5]]]]]]].
   exists y, q, cpx. split; [exact H1|]. split; [right; exact H2|]. split; [rewrite (qual_fresh c b r x Hwf Hx); exact H3|].
@@ -302,11 +306,12 @@ Lemma casts_inv_mark b r Qb Qb' m f f' ca cpb : wf_repo (b :: r) -> b_signer b =
   cp_of (b :: r) b = Some cpb ->
   casts_inv r Qb m f ca -> casts_inv (b :: r) Qb' m f' (mark ca (b_id cpb) (qual c (b :: r) b)).
 Proof.
-  intros Hwf Hs Hf HQ1 HQ2 Hcp [Hn Hb Hc].
+  intros Hwf Hs Hf HQ1 HQ2 Hcp [Hn Hst Hb Hc].
   assert (Hcpin : In cpb (b :: r)).
   { unfold cp_of in Hcp. destruct (block_at_num _ _ _ _ Hcp) as [_ H]. exact (chain_incl _ _ _ H). }
   constructor.
   - apply mark_nodup. exact Hn.
+  - apply mark_stored; [|exact Hcpin]. intros kv Hkv. destruct (Hst kv Hkv) as [y [Hy E]]. exists y. split; [right; exact Hy | exact E].
   - intros k q H. apply mark_in in H. destruct H as [[_ ->]|[H _]]; [exact HQ2 | specialize (Hb k q H); lia].
   - intros x Hx Hsx Hfx. destruct Hx as [<-|Hx].
     + exists cpb, (qual c (b :: r) b), cpb. split; [apply mark_in; left; tauto|]. split; [exact Hcpin|]. split; [lia|].
